@@ -410,12 +410,25 @@ class History:
                 m[rows, c] = rng.choice(vals, size=len(rows))
         return Live(gen.dense_to_index(m, 0), m, "huge")
 
+    def medium(self):
+        """A few thousand rows and few values: every entry lists more than a thousand row ids (lists long enough for
+        whatever an implementation does differently for big lists - growth in place, spare room, block copies)."""
+        rng = self.rng
+        n = int(gen.pick(rng, [3400, 4100, 9000]))
+        cols = int(rng.integers(1, 3))
+        vals = list(self.vals)[:3] if len(self.vals) >= 2 else [0, 1]
+        m = numpy.asarray(vals, dtype=I64)[rng.integers(0, len(vals), size=(n, cols) if cols > 1 or rng.random() < 0.5 else (n,))]
+        return Live(gen.dense_to_index(m, int(vals[0])), m, "medium")
+
     def run(self):
         ctx = self.ctx
         try:
-            self.add(self.huge() if self.profile.get("huge") else self.fresh())
+            self.add(self.huge() if self.profile.get("huge") else (self.medium() if self.profile.get("medium") else self.fresh()))
             for step in range(self.nsteps):
                 first = self.profile.get("first_ops") or []
+                if self.profile.get("first_ops_choices"):
+                    ch = self.profile["first_ops_choices"]
+                    first = ch[self.hseed % len(ch)]
                 if step < len(first) and getattr(self, "op_" + first[step])():
                     continue
                 self.step()
@@ -582,7 +595,7 @@ class History:
         if rng.random() < 0.4:
             o = self.choose(lambda l: l is not r and l.m.shape[1:] == trailing)
         if o is None:
-            n = gen.pick(rng, [0, 0, 1, 2, 3, 6])
+            n = gen.pick(rng, self.profile.get("append_rows") or [0, 0, 1, 2, 3, 6])
             o = self.fresh(ndim=r.m.ndim, n=n, trailing=trailing, via="constructor")
         snap = monitors.snapshot(o.x)
         before_common = r.x.common
